@@ -405,7 +405,13 @@ class Interp:
                 # new cell
                 ety = TY.get(v[2])
                 name = f"{self._seqname(w, v)}[{idx.pretty()}]"
-                cval = ('top', v[2], ('cell', v[4]), name)
+                if isinstance(v[4], tuple) and v[4] and v[4][0] == 'default':
+                    cval = v[4][1]          # scenario: every element not yet touched holds this value
+                elif ety is not None and ety.get('k') == 'int' and newval is None:
+                    lo_, hi_ = int_range(ety)
+                    cval = ('int', Lin.atom(ATOMS.fresh(name, lo_, hi_, defn=('elem', v[4], idx))))
+                else:
+                    cval = ('top', v[2], ('cell', v[4]), name)
                 nc, out = self._walk(w, cval, rest, newval)
                 if newval is not None:
                     # a write to an index: cells at other (possibly equal) indexes are forgotten
